@@ -44,7 +44,8 @@ PROPS = {
     ),
     'C09': dict(
         covered=['ChunkedChars::next against an adversarial byte source that hands out ANY non-empty prefix per read (every chunking, including splits inside a code point): Some(c) means c is exactly the next UTF-8 character of the remaining bytes and exactly its bytes were consumed',
-                 'LiveEvents implements the Events cursor contract for both input kinds through the same pump (look-ahead served first, peek does not consume)'],
+                 'LiveEvents implements the Events cursor contract for both input kinds through the same pump (look-ahead served first, peek does not consume)',
+                 'from_slice_with_options / from_slice_multiple_with_options: on valid UTF-8 exactly the result of the string entry point on the decoded text with the same options, otherwise Error::InvalidUtf8Input (target type and Options opaque)'],
         not_covered=['equality of saphyr-parser StrInput / BufferedInput front ends; encoding_rs_io decoding; BOM stripping; borrowed vs owned strings'],
         assumptions=[],
     ),
